@@ -310,7 +310,8 @@ class ForceMatrix:
                 except np.linalg.LinAlgError:
                     raise ValueError("Singular matrix")
                 
-                if np.any([x < 0 for x in xres[:-1]]) and not kwargs.get("allow_negatives", True):
+                # the multiplier is a candidate too: the fallback constrains every unknown
+                if np.any([x < 0 for x in xres]) and not kwargs.get("allow_negatives", True):
                     raise ValueError("Negative values detected")
         except (ValueError, np.linalg.LinAlgError, TypeError) as e:
             warnings.warn(f"Numerically solving due to the following error: {e}")
